@@ -183,49 +183,58 @@ struct PeerRec {
     addr: String,
 }
 
-/// Address book at the WriteAheadLog seam. `pattern`: per step 0 = append a record,
-/// 1 = stop + start, 2 = kill + start. After every start, read_all folded with the rule of
-/// octopii/src/openraft/node.rs (last record per peer wins; re-stated here because node.rs
-/// cannot be compiled offline) must give the last acknowledged address of every peer.
+/// Address book through the functions of octopii/src/openraft/node.rs themselves (cut out of
+/// the file by build.rs, see nodebook.rs). `pattern`: per step 0 = a peer gets a new address,
+/// 3 = a peer's current address is asserted again (no change), 1 = stop + start, 2 = kill +
+/// start. After every start the book must hold the last acknowledged address of every peer.
 pub fn address_book_history(dir: &Path, pattern: &Vec<u8>) -> Result<Option<String>, String> {
+    use ocmc::nodebook::OpenRaftNode;
+    use std::net::SocketAddr;
     let _ = std::fs::remove_dir_all(dir);
     std::fs::create_dir_all(dir).map_err(|e| e.to_string())?;
-    let open = || -> Result<Arc<WriteAheadLog>, String> {
-        tokio::block_on(WriteAheadLog::new(dir.join("peer_addrs"), 100, Duration::from_millis(100))).map(Arc::new).map_err(|e| e.to_string())
-    };
-    let mut wal = open()?;
-    let mut model: BTreeMap<u64, String> = BTreeMap::new();
-    let mut shadow: BTreeMap<u64, String> = BTreeMap::new();
+    let open = || -> Result<OpenRaftNode, String> { tokio::block_on(OpenRaftNode::open(dir)).map_err(|e| e.to_string()) };
+    let mut node = open()?;
+    let mut model: BTreeMap<u64, SocketAddr> = BTreeMap::new();
+    let mut shadow: BTreeMap<u64, SocketAddr> = BTreeMap::new();
     let mut restarts = 0usize;
     let mut k = 0u64;
     let mut steps: Vec<u8> = pattern.clone();
     steps.push(1); // always end with a restart
     for (i, s) in steps.iter().enumerate() {
         match s {
-            0 => {
-                let rec = PeerRec { peer_id: k % 2 + 1, addr: format!("10.0.0.{}:70{}", k, k) };
-                k += 1;
-                let bytes = bincode::serialize(&rec).map_err(|e| e.to_string())?;
-                if let Err(e) = tokio::block_on(wal.append(Bytes::from(bytes))) {
-                    return Ok(Some(format!("append of address record failed at step {}: {}", i, e)));
+            0 | 3 => {
+                let peer = if *s == 3 { 1 } else { k % 2 + 1 };
+                let addr: SocketAddr = if *s == 3 {
+                    match model.get(&peer) {
+                        Some(a) => *a,
+                        None => format!("10.0.0.{}:70{:02}", k, k).parse().unwrap(),
+                    }
+                } else {
+                    format!("10.0.0.{}:70{:02}", k, k).parse().unwrap()
+                };
+                if *s == 0 {
+                    k += 1;
                 }
-                model.insert(rec.peer_id, rec.addr.clone());
-                shadow.insert(rec.peer_id, rec.addr);
+                if let Err(e) = tokio::block_on(node.update_peer_addr(peer, addr)) {
+                    return Ok(Some(format!("address update failed at step {}: {}", i, e)));
+                }
+                if model.get(&peer) != Some(&addr) {
+                    shadow.insert(peer, addr);
+                }
+                model.insert(peer, addr);
+                let now = tokio::block_on(node.book());
+                if now != model {
+                    return Ok(Some(format!("after step {} the running node's address book is {:?} but the acknowledged updates give {:?}", i, now, model)));
+                }
             }
             _ => {
                 if *s == 2 {
-                    std::mem::forget(wal);
+                    std::mem::forget(node);
                 } else {
-                    drop(wal);
+                    drop(node);
                 }
-                wal = open()?;
-                let entries = tokio::block_on(wal.read_all()).map_err(|e| e.to_string())?;
-                let mut got: BTreeMap<u64, String> = BTreeMap::new();
-                for raw in entries {
-                    if let Ok(r) = bincode::deserialize::<PeerRec>(&raw) {
-                        got.insert(r.peer_id, r.addr);
-                    }
-                }
+                node = open()?;
+                let got = tokio::block_on(node.book());
                 if got != model {
                     let tag = if restarts >= 1 && got == shadow { "[suffix-only-after-second-restart] " } else { "" };
                     return Ok(Some(format!("{}after restart at step {} the address book is {:?} but the acknowledged records give {:?}", tag, i, got, model)));
